@@ -1,53 +1,80 @@
 #!/usr/bin/env python3
 """Regenerates /verif/MANIFEST.json from the table below (kept in one place so it stays valid)."""
-import json, subprocess, sys
+import json, subprocess
 ROOT = "/verif"
 ids = [json.loads(l)["id"] for l in open(f"{ROOT}/properties.jsonl")]
-
+DST = "deterministic simulation with fault injection: "
 CLAIMED = {
- # id: (category, technique, text, note, design_ref)
- "C01": ("exploration", "deterministic simulation: seeded histories vs. reference log model",
-         "Seeded search over send/flush/save/purge/retention/restart histories and storage configurations; every offset the real server assigns (observed through the real SDK over the simulated transport) must equal the reference log's. Sampling evidence, not proof.",
-         "trusts the simulator's executor/file shim and the reference model (sim/src/model.rs); polls at quiescent points", "4.C01"),
- "C02": ("exploration", "deterministic simulation: every poll compared with the model slice",
-         "After every step of seeded histories polls of every kind are compared field by field with the reference slice; tier placement (cache, buffer, disk, several segments/batches, after reload) is forced by the configuration swarm.",
-         "polls judged at quiescent points; messages of deleted segments may be served from the cache (statement silent)", "4.C02"),
- "C03": ("exploration", "deterministic simulation: snapshot equality across simulated restarts",
-         "Real System::shutdown (or flush-all + kill), process-global reset, real System::init on the same directory at seeded history positions; full snapshot before == after and traffic continues against the unchanged model.",
-         "graceful stop modelled per server/src/main.rs (runtime dropped right after shutdown, or after draining); process-death model", "4.C03"),
+ "C01": ("exploration", DST + "seeded send/flush/save/purge/retention/restart histories vs. reference log model",
+         "Seeded search over histories and storage configurations; every offset the real server assigns (observed through the real SDK over the simulated transport) must equal the reference log's, also after restarts, purges and retention passes.", "polls at quiescent points; sampling evidence", "4.C01"),
+ "C02": ("exploration", DST + "every poll kind compared field by field with the model slice under a configuration swarm",
+         "After every step of seeded histories, polls of every kind are compared with the reference slice; tier placement (cache, unsaved buffer, disk, several segments/batches, after reload) is forced by the configuration swarm.", "polls judged at quiescent points; messages of deleted segments may be served from the cache (statement silent)", "4.C02"),
+ "C03": ("exploration", DST + "snapshot equality across simulated clean restarts at seeded history positions",
+         "Real System::shutdown (or flush-all + kill), process-global reset, real System::init on the same directory; full snapshot before == after, traffic continues against the unchanged model; lost index files; watchdog for restarts that never complete.", "graceful stop modelled per server/src/main.rs (runtime dropped right after shutdown, or after draining)", "4.C03"),
+ "C04": ("fault_enumeration", DST + "crash image at every file-mutation boundary of a recorded run + torn variants of the last write, booted by the real recovery code",
+         "For each seeded recorded run every boundary after a log/index/consumer-offset/state-log/segment-file mutation (and torn lengths of the last write) is rebuilt as a directory and booted; recovery oracle: start-up succeeds, no panic, gap-free prefix of accepted messages, completely written+indexed batches survive (wait mode), post-recovery sends continue, second restart agrees, consumer offsets are stored values. Enumeration within a run, sampling over runs. Three cause classes are listed known findings.", "process-death model (completed writes survive); deferred tokio write completion not modelled (inline writes)", "4.C04"),
+ "C05": ("exploration", DST + "catalogue command histories with restarts; dump before == after",
+         "Administrative histories (auto/explicit ids, by number/name, delete+re-create, users, permissions, tokens, groups) through the binary protocol with clean restarts; catalogue dump, messages and directory tree compared across each restart.", "binary transport only (HTTP handlers share System and the state journal; not driven)", "4.C05"),
+ "C06": ("exploration", DST + "sequential-map refinement after every valid/invalid catalogue command",
+         "Every response of every catalogue command is predicted by a sequential map model; failed commands change nothing; deletes cascade; no handler panic; periodic full audits of every listing and entity by id and by name.", "binary transport only", "4.C06"),
+ "C07": ("exploration", DST + "consumer-offset histories over consumer x group x partition identities vs. map model",
+         "store/get/delete/poll-next/auto-commit/purge/group-deletion/restart with identities chosen so that a consumer and a group share a numeric id; crash durability of offset files is part of C04.", "named consumers resolved with the same hash the server uses", "4.C07"),
+ "C08": ("exploration", DST + "join/leave/disconnect/heartbeat-expiry/partition add+remove with several connections; assignment invariants and group-wide exactly-once",
+         "After every membership or partition-count event the assignment reported by get_consumer_group is checked (exclusive, complete, even); member polls are served from their share in rotation; next+auto-commit slices equal the model (no repeat, no hole).", "heartbeat expiry driven by the simulated clock and the real VerifyHeartbeatsExecutor", "4.C08"),
+ "C09": ("exploration", DST + "sessions x users x swarm-generated permission records, updates interleaved with requests, unauthenticated raw requests, rule-level probes on the real Permissioner",
+         "No request is served without authentication or without a rule of the documented hierarchy granting it (permissive reading as upper bound), root is protected, permission changes are in force for the next request, rule evaluation never panics and is monotone (checked on the real Permissioner for record/superset pairs).", "the converse (every documented grant is honoured) is counted, not demanded: the statement is one-directional; record space sampled", "4.C09"),
+ "C10": ("exploration", DST + "credential life-cycle histories with clock jumps and restarts; byte scan of every file for secrets",
+         "Login outcomes (password, personal access tokens: right/wrong/stale/expired/other user's/deleted) follow a validity model before and after restarts; after every audit all files are scanned for every password and raw token (plain, base64, UTF-16).", "JWT/HTTP not driven", "4.C10"),
+ "C11": ("exploration", DST + "concurrent journalling under I/O-granular seeded schedules with injected append failures, then every byte flip / truncation / entry permutation of the harvested journal through the real loader",
+         "(a) 2-4 clients issue journalled commands concurrently (purge under the shared lock), with and without injected open/write/fsync failures on the state log; the journal must load with consecutive indices and the server must start from it. (b) exhaustive single-byte mutations, truncation lengths and entry permutations of small journals (sampled for large ones): the loader reports them or returns a prefix only for the loss of a whole suffix; never a panic, never another history.", "length fields are only mutated in their low three bytes (the loader allocates what they announce)", "4.C11"),
+ "C12": ("exploration", DST + "N producers + M pollers + flusher + saver + evictor on one partition under seeded schedules; history predicates",
+         "Batch-contiguous interleaving, per-producer order, nothing lost/twice, every poll a contiguous run equal to the final log, no partial batch visible, acknowledged-under-wait implies visible (event sequence numbers). The no-wait visibility hole is a listed known finding.", "file writes complete inline (tokio's deferred File write is not modelled)", "4.C12"),
+ "C13": ("exploration", DST + "every exchange real SDK encoder -> simulated byte stream -> real server decoder/handler -> real SDK decoder compared with the model under a value swarm; malformed frames from a raw connection",
+         "All model-equality oracles are wire-agreement oracles under the C13 swarm (boundary name lengths, empty/absent optionals, header kinds, fragmenting pipe capacities); garbage/truncated/mutated frames and mid-frame closes on a second connection must leave the catalogue, logs and other connections untouched (judged by the audits that follow).", "the context-free codec round trip over all values is sampled, not enumerated (DESIGN 6); HTTP/JSON not driven", "4.C13"),
+ "C14": ("exploration", DST + "expiring topics, clock jumps on both sides of the expiry, maintenance passes, expiry updates, restarts",
+         "After each real maintenance pass the vanished offsets must be whole closed segments whose newest message was expired at pass time (or legal size clean-up); open segments and never-expiring topics lose nothing; current offset unchanged; traffic and restarts continue against the model.", "segment boundaries before a pass are read through the introspection hook H9", "4.C14"),
+ "C15": ("exploration", DST + "size-limited topics, delete-oldest on/off, limit updates, maintenance passes",
+         "Sends at/above the limit (as reported by the server itself) with deletion disabled are refused with TopicFull and store nothing; otherwise accepted; size clean-up removes at most the oldest closed segment per partition; limits below one segment are rejected on create and update.", "", "4.C15"),
+ "C16": ("exploration", DST + "reported counts/sizes vs. ground truth from the model after every step, sum hierarchy, restart invariance",
+         "get_topic/get_stream/get_topics figures equal the retained-message counts of the model and the sums over children; identical across restarts (byte sizes compared when nothing is buffered); zero after purge.", "get_stats counts are compared when a run issues it (sysinfo is slow)", "4.C16"),
+ "C17": ("exploration", DST + "balanced / partition-id / key sends interleaved with partition add/remove; where each unique message lands",
+         "Explicit partition: exactly there or refused with nothing stored; same key and count: same existing partition; balanced sends rotate evenly over windows starting at a count change; one send lands in one partition.", "the hash function itself is not re-implemented", "4.C17"),
+ "C18": ("exploration", DST + "id repetition patterns across batches, persists and restarts with dedup on/off",
+         "First occurrence kept, repeats dropped without consuming an offset (model + C01 oracles), distinct ids never dropped, nothing dropped with dedup off; id set rebuilt after restarts.", "runs stay inside the dedup TTL/capacity", "4.C18"),
+ "C19": ("exploration", DST + "encryption on: byte scan of all files, lossless reads, restarts with same / other / no key",
+         "With encryption on no payload marker and no journalled name appears in any file; polls return what was sent; a start with another key (or encryption off) is rejected or serves nothing as content, never panics; the right key then restores everything.", "", "4.C19"),
+ "C20": ("exploration", DST + "real IggyClient/IggyProducer/IggyConsumer (background tasks scheduled by the simulator) against the simulated server",
+         "Every produced message is found exactly where it was addressed (all send methods incl. send_to), the consumer yields +1 offsets per instance, commits never exceed what was handed out, a re-created consumer resumes right after the committed offset, nothing is lost in commit-on-consumption modes.", "AutoCommit::Interval/IntervalOrWhen is left out (its committer task never ends, runs do not reach quiescence); After(..) modes are committed by the scenario like consumer_ext would", "4.C20"),
 }
-
-def level_note(i): return CLAIMED[i][3]
 checks = []
 for i in ids:
-    if i in CLAIMED:
-        cat, tech, text, note, ref = CLAIMED[i]
-        checks.append({
-            "property_id": i,
-            "quick_cmd": f"./check {i} quick",
-            "thorough_cmd": f"./check {i} thorough",
-            "evidence_file": f"/verif/evidence/{i}.json",
-            "replay_cmd_template": "./check replay {path}",
-            "engine": "sim",
-            "level_claimed": {"category": cat, "text": text, "design_ref": f"DESIGN.md {ref}"},
-            "level_note": note,
-            "technique": tech,
-        })
-hooks = subprocess.run(["git", "-C", "/repo", "log", "--format=%h %s", "--grep=^verif hook"], capture_output=True, text=True).stdout.strip().splitlines()
+    cat, tech, text, note, ref = CLAIMED[i]
+    checks.append({
+        "property_id": i,
+        "quick_cmd": f"./check {i} quick",
+        "thorough_cmd": f"./check {i} thorough",
+        "evidence_file": f"/verif/evidence/{i}.json",
+        "replay_cmd_template": "./check replay {path}",
+        "engine": "sim",
+        "level_claimed": {"category": cat, "text": text, "design_ref": f"DESIGN.md {ref}"},
+        "level_note": (note + "; " if note else "") + "trusted base: the simulator (sim/src/rt.rs), the file/transport shims behind feature iggy_verif, the reference model (sim/src/model.rs); sampling evidence, not proof",
+        "technique": tech,
+    })
+hooks = subprocess.run(["git", "-C", "/repo", "log", "--format=%h", "--grep=^verif hook"], capture_output=True, text=True).stdout.split()
 manifest = {
     "version": 1,
-    "setup_cmd": "cd /verif/sim && CARGO_NET_OFFLINE=true cargo build --offline",
+    "setup_cmd": "cd /verif && ./check determinism 40",
     "hooks": {
         "guard": "cargo feature iggy_verif (crates iggy and server; off by default)",
         "enable": "the harness package /verif/sim depends on /repo/server and /repo/sdk by path with features=[\"iggy_verif\"]; every ./check rebuilds it from /repo's working tree",
         "baseline_off_cmd": "cd /repo && cargo nextest run --workspace --no-fail-fast --test-threads 8 --offline",
-        "source_commits": [h.split()[0] for h in hooks],
+        "source_commits": hooks,
         "add_only": True,
     },
-    "engines": [{"name": "sim", "path": "/verif/sim", "serves_properties": sorted(CLAIMED), "kind_free_text": "deterministic simulation with fault injection: seeded single-threaded executor, simulated clock/disk/network, reference model, seeded search, minimised replay files"}],
+    "engines": [{"name": "sim", "path": "/verif/sim", "serves_properties": ids, "kind_free_text": "deterministic simulation with fault injection: seeded single-threaded executor over the real server and SDK code, simulated clock/disk/network, reference model, seeded search, minimised replay files, determinism proof"}],
     "checks": checks,
-    "not_applicable": [{"property_id": i, "reason": "not claimed yet: its scenario family is still under construction in this session (nothing is asserted about it)"} for i in ids if i not in CLAIMED],
-    "notes": "Exit codes of every check: 0 held on everything explored (KNOWN-FINDING lines possible), 1 VIOLATION line printed, 2 harness/build error. VERIF_SEED selects the seed block; VERIF_SCALE scales the number of runs.",
+    "not_applicable": [],
+    "notes": "Exit codes of every check: 0 held on everything explored (KNOWN-FINDING lines for the open entries of known_findings.json), 1 VIOLATION line printed, 2 harness/build error. VERIF_SEED selects the seed block, VERIF_SCALE scales the number of runs. setup_cmd builds the harness and runs the determinism proof (every seed twice in different processes).",
 }
 json.dump(manifest, open(f"{ROOT}/MANIFEST.json", "w"), indent=1)
-print("claimed:", sorted(CLAIMED))
+print("claimed:", len(checks))
